@@ -441,6 +441,12 @@ def main(ctx) -> int:
                                                             json.loads(json.dumps(hist['missions'][int(rng.integers(0, len(hist['missions'])))]))]}
                     eval_history(ctx, h2, 'widened')
                     ctx.count('widened-search')
+        # the residual and the correction of the mass iteration, regenerated from builders/base.py (translator validation; the
+        # bridge to the model is proved in Lean, KernelBridge3.iterate_mass)
+        from harness import kernels
+
+        kernels.check_loops(ctx, files={'trajectories/builders/base.py'}, flights=6 if ctx.tier == 'quick' else 60)
+        kernels.check_fly_iteration(ctx, flights=24 if ctx.tier == 'quick' else 200)
     finally:
         Config.reset()
     return ctx.finish(RULE, TRUSTED, ASSUME)
